@@ -41,6 +41,9 @@ pub enum By {
     /// the contract owner authorises exactly this call
     Owner,
     Nobody,
+    /// the gas collector authorised the same entry point with one argument different: k % 3 = 0 another receiver,
+    /// 1 an amount one higher, 2 (refund) another message id / (collect) another token
+    CollectorOtherArg(u8),
 }
 
 #[derive(Clone, Debug, Serialize, Deserialize, PartialEq, Eq)]
@@ -80,7 +83,7 @@ fn amt() -> impl Strategy<Value = Amt> {
     prop_oneof![1 => Just(Amt::Zero), 1 => Just(Amt::Neg), 2 => Just(Amt::One), 5 => (2u8..90).prop_map(Amt::Small), 2 => Just(Amt::Bal), 2 => Just(Amt::BalPlus1), 1 => Just(Amt::Max)]
 }
 fn by() -> impl Strategy<Value = By> {
-    prop_oneof![6 => Just(By::Collector), 1 => Just(By::Stranger), 1 => Just(By::Owner), 1 => Just(By::Nobody)]
+    prop_oneof![6 => Just(By::Collector), 1 => Just(By::Stranger), 1 => Just(By::Owner), 1 => Just(By::Nobody), 2 => (0u8..3).prop_map(By::CollectorOtherArg)]
 }
 fn op() -> impl Strategy<Value = Op> {
     prop_oneof![
@@ -320,22 +323,46 @@ impl Property for C14 {
                 (Op::TransferOwnership, _) | (Op::UpgradeAndMigrate, _) | (Op::AdvanceDays(_), _) | (Op::ThirdPartyPull { .. }, _) | (Op::PayAsService { .. }, _) => unreachable!(),
                 (Op::Collect { receiver, amount, .. }, b) => {
                     let a = resolve(if ti == SLOPPY && *amount == Amt::Max { Amt::BalPlus1 } else { *amount }, held[ti]);
-                    let who = if b == By::Stranger { &stranger } else { &owner_now };
+                    let who = match b {
+                        By::Stranger => &stranger,
+                        By::CollectorOtherArg(_) => &gas.collector,
+                        _ => &owner_now,
+                    };
+                    let (s_recv, s_tok, s_amt) = match b {
+                        By::CollectorOtherArg(k) => match k % 3 {
+                            0 => (receivers[(*receiver as usize + 1) % 3].clone(), taddr.clone(), a),
+                            1 => (receivers[*receiver as usize % NR].clone(), taddr.clone(), a.saturating_add(1)),
+                            _ => (receivers[*receiver as usize % NR].clone(), tokens[(ti + 1) % 3].clone(), a),
+                        },
+                        _ => (receivers[*receiver as usize % NR].clone(), taddr.clone(), a),
+                    };
                     let inv = MockAuthInvoke {
                         contract: &gas.id,
                         fn_name: "collect_fees",
-                        args: (receivers[*receiver as usize % NR].clone(), Token { address: taddr.clone(), amount: a }).into_val(&env),
+                        args: (s_recv, Token { address: s_tok, amount: s_amt }).into_val(&env),
                         sub_invokes: &[],
                     };
                     env.mock_auths(&[MockAuth { address: who, invoke: &inv }]);
                 }
                 (Op::Refund { receiver, amount, .. }, b) => {
                     let a = resolve(if ti == SLOPPY && *amount == Amt::Max { Amt::BalPlus1 } else { *amount }, held[ti]);
-                    let who = if b == By::Stranger { &stranger } else { &owner_now };
+                    let who = match b {
+                        By::Stranger => &stranger,
+                        By::CollectorOtherArg(_) => &gas.collector,
+                        _ => &owner_now,
+                    };
+                    let (s_msg, s_recv, s_amt) = match b {
+                        By::CollectorOtherArg(k) => match k % 3 {
+                            0 => ("msg", receivers[(*receiver as usize + 1) % 3].clone(), a),
+                            1 => ("msg", receivers[*receiver as usize % NR].clone(), a.saturating_add(1)),
+                            _ => ("msg-2", receivers[*receiver as usize % NR].clone(), a),
+                        },
+                        _ => ("msg", receivers[*receiver as usize % NR].clone(), a),
+                    };
                     let inv = MockAuthInvoke {
                         contract: &gas.id,
                         fn_name: "refund",
-                        args: (sstr(&env, "msg"), receivers[*receiver as usize % NR].clone(), Token { address: taddr.clone(), amount: a }).into_val(&env),
+                        args: (sstr(&env, s_msg), s_recv, Token { address: taddr.clone(), amount: s_amt }).into_val(&env),
                         sub_invokes: &[],
                     };
                     env.mock_auths(&[MockAuth { address: who, invoke: &inv }]);
